@@ -29,6 +29,12 @@ def step (toks : List String) : String :=
     let b : Block Nat (Nat × Content) := if sig == "sig=1" then genuine else ⟨content0, none⟩
     let k := if key == "key=signer" then signer else other
     showCheck (verifyWithKey toy b k)
+  -- the receive path: a forged head is rejected on every delivery, also when an earlier rejected delivery left its
+  -- block in the receiver's store (`accepted_means_all_genuine` holds per delivery)
+  | ["recv", tam, _] =>
+    let name := (tam.drop 7).toString
+    let bad : Block Nat (Nat × Content) := ⟨tampered name, some ⟨signer, toy.sign signer content0⟩⟩
+    if syncAccepts toy [bad] then "ok" else "invalid"
   | ["sync", "tamper=none"] => if syncAccepts toy [genuine] then "ok" else "invalid"
   | ["sync", tam, at_] =>
     let name := (tam.drop 7).toString
